@@ -19,7 +19,7 @@ func genH(t *rapid.T, onceBias int) H {
 }
 
 func GenSeq(t *rapid.T) *SeqCase {
-	c := &SeqCase{}
+	c := &SeqCase{SharedOpts: rapid.IntRange(0, 3).Draw(t, "sharedOpts") == 0}
 	if rapid.Bool().Draw(t, "hasAmbient") {
 		c.Ambient = rapid.IntRange(0, busmodel.AmbAll).Draw(t, "ambient")
 	}
@@ -62,7 +62,7 @@ func GenSeq(t *rapid.T) *SeqCase {
 }
 
 func GenConc(t *rapid.T) *ConcCase {
-	c := &ConcCase{Rounds: 20}
+	c := &ConcCase{Rounds: 20, SharedOpts: rapid.IntRange(0, 3).Draw(t, "sharedOpts") == 0}
 	if rapid.Bool().Draw(t, "hasAmbient") {
 		c.Ambient = rapid.IntRange(0, busmodel.AmbAll).Draw(t, "ambient")
 	}
